@@ -65,8 +65,11 @@ def leaf_obs_in_space(
     kind: str = "routed",
     nmne: bool = True,
     variant: str = "exact",
+    ftp: bool = False,
 ):
-    """The real observation tree of the generated scenario evaluated on a state dict with solver-chosen quantities."""
+    """The real observation tree of the generated scenario evaluated on a state dict with solver-chosen quantities.
+    ftp: the state is taken in a step in which the observed ftp-client really transferred a file (services report
+    transient activity in describe_state)."""
     from primaite.simulator.file_system.file_system_item_abc import FileSystemItemHealthStatus
     from primaite.simulator.network.hardware.node_operating_state import NodeOperatingState
     from primaite.simulator.network.hardware.nodes.network.router import ACLAction
@@ -79,6 +82,15 @@ def leaf_obs_in_space(
         env.reset()
         om = env.agent.observation_manager
         space = om.space
+        if ftp:
+            from ipaddress import IPv4Address
+
+            cli = env.game.simulation.network.get_node_by_hostname("client_1")
+            srv_ip = "192.168.1.10" if kind == "switched" else "192.168.2.10"
+            cli.file_system.create_file(file_name="up.txt", folder_name="out")
+            sent = cli.software_manager.software["ftp-client"].send_file(dest_ip_address=IPv4Address(srv_ip), src_folder_name="out", src_file_name="up.txt", dest_folder_name="in", dest_file_name="up.txt")
+            if not sent:
+                fail("harness: the FTP transfer that should precede the observation did not succeed")
         state = copy.deepcopy(env.game.get_sim_state())
         # sanity of the walker against gymnasium on the concrete observation
         o0 = om.obs.observe(state)
@@ -312,7 +324,9 @@ HARNESSES = {
         + [{"fixed": {"g": 3, "kind": "routed", "nmne": True, "b1": b}, "timeout": 400} for b in (False, True)]
         + [{"fixed": {"g": 2, "kind": "switched", "nmne": False}, "timeout": 200}]
         # observation configs that list more / fewer components than the num_* sizes (truncated / padded by the real code)
-        + [{"fixed": {"g": gi, "kind": "switched", "nmne": True, "variant": v}, "timeout": 280} for v in ("surplus", "padded") for gi in (0, 1, 5)],
+        + [{"fixed": {"g": gi, "kind": "switched", "nmne": True, "variant": v}, "timeout": 280} for v in ("surplus", "padded") for gi in (0, 1, 5)]
+        # the observed ftp-client transferred a file in the step the state is taken from
+        + [{"fixed": {"g": 0, "kind": "switched", "nmne": True, "variant": "surplus", "ftp": True}, "timeout": 280}],
         "thorough": [{"fixed": {"g": gi, "kind": kd, "nmne": nm}, "timeout": 1200} for gi in range(len(GROUPS)) for kd in ("routed", "switched") for nm in (True, False) if not (gi == 3 and kd == "switched")]
         + [{"fixed": {"g": gi, "kind": "routed", "nmne": True, "variant": v}, "timeout": 1200} for v in ("surplus", "padded") for gi in range(len(GROUPS))],
         "cover": ["grp_host_sw", "grp_host_fs", "grp_nic", "grp_acl", "grp_link", "grp_absent"],
